@@ -146,6 +146,28 @@ def history_tier(res, tier, seed, shard, scratch):
                         if rng.random() < 0.5 and s.model.points:
                             s.do({"op": rng.choice(["get", "contains"]), "q": ("cmp", "measurement", (), "==", rng.choice(gen.MEAS))})
                         continue
+                    if rng.random() < 0.25 and s.model.points:
+                        # an insert that fails inside the storage layer (a valid point the CSV row cannot express):
+                        # whatever it does, it may only ever append
+                        from tinyflux import Point as _P
+
+                        before = s.file_bytes()
+                        bad = rng.choice([lambda: _P(time=from_us(BASE_US), fields={"x": 10**400}), lambda: _P(time=from_us(BASE_US), tags={"k": "\ud800"})])
+                        try:
+                            if rng.random() < 0.5:
+                                s.db.insert(bad())
+                            else:
+                                s.db.insert_multiple([bad()])
+                            raised = False
+                        except Exception:  # noqa: BLE001
+                            raised = True
+                        res.count("history.failing_inserts" if raised else "history.failing_inserts_accepted")
+                        mid = s.file_bytes()
+                        if not mid.startswith(before):
+                            res.violate(Violation("C16", "insert-not-append-only", {"config": cfg, "what": "an insert that raised in the storage layer changed earlier bytes", "rows_before": len(s.model.points)}, replay={"cfg": cfg, "ops": list(s.log)}, features={"what": "prefix", "origin": "failing insert"}))
+                            return
+                        if not raised:
+                            return  # storage accepted it: the model no longer describes the file, stop this history
                     before = s.file_bytes()
                     rec = ioproxy.Recorder()
                     hub.monitor = rec
